@@ -308,6 +308,7 @@ func checkC09() fw.Check {
 		Prop:  "C09",
 		Level: "exploration",
 		Rule: "one case = (variant, workload in {every truncation length of every genuine reply form, segments on the probed connection with hostile TCP options (SACK options that are not whole blocks, timestamp options of every length, unknown kinds, lying length bytes), structure-aware mutation (bit/byte flips, IHL/version nibbles, total/payload length lies, protocol sweep, TCP data offset, option/RFC4884 length bytes, fragments, IPv6 extension chains, oversize frames, garbage payloads), random byte strings 0..2048}, window, chunk): the frames are injected before the first send, around every probe, during the SACK handshake and after the destination answered; oracle = the run must not abort or crash, every hop must stay justified by the reference matcher, and when the reference matcher classifies every injected frame as non-matching the result must equal the noise-free twin run exactly (addresses, destination flag, RTT). " +
+			"Real-kernel stage: the CLI binary built from the working tree (no verif tag) traces a chain of Linux kernel routers through the AF_PACKET source while a neighbouring namespace floods the source host with ICMP echo requests larger than the tool's 1024-byte read buffer, fragmented datagrams, ICMP errors quoting garbage, buffer-sized unsolicited echo replies and datagrams to closed ports; the chain must equal the undisturbed one (3 of up to 5 runs for a verdict). " +
 			"distinct_nontrivial counts distinct (variant, workload, ref-kind) with injected frames read by the tool; counters give frames injected/read and twin-equal runs",
 		Workers:       16,
 		MinNontrivial: 30,
@@ -348,7 +349,8 @@ func checkC09() fw.Check {
 					c.Nontrivial("fuzz-corpus")
 				}
 			}})
-			return cases
+			// the real capture socket under a flood of hostile frames (kernel_stage_test.go)
+			return withKernelStage("C09", tier, cases)
 		},
 	}
 }
